@@ -1077,7 +1077,16 @@ impl AppearanceStreamEntry {
                 }
                 let mut states = HashMap::new();
                 for (key, val) in dict.iter() {
-                    states.insert(key.clone(), Self::from_primitive_depth(val.clone(), resolve, depth - 1)?);
+                    let referenced = match *val {
+                        Primitive::Reference(r) => Some(r.id),
+                        _ => None
+                    };
+                    match Self::from_primitive_depth(val.clone(), resolve, depth - 1) {
+                        Ok(entry) => { states.insert(key.clone(), entry); }
+                        // a reference to a missing object is a reference to null: no such state
+                        Err(ref e) if referenced.map_or(false, |id| e.is_missing_object(id)) => {}
+                        Err(e) => return Err(e)
+                    }
                 }
                 Ok(AppearanceStreamEntry::Dict(states))
             }
@@ -1169,9 +1178,10 @@ impl<T: Object> Object for NameTree<T> {
     fn from_primitive(p: Primitive, resolve: &impl Resolve) -> Result<Self> {
         let mut dict = t!(p.resolve(resolve)?.into_dictionary());
         
-        let limits = match dict.remove("Limits") {
+        // (an entry that refers to a missing object is a null entry: absent)
+        let limits = match take_entry(&mut dict, "Limits", resolve)? {
             Some(limits) => {
-                let limits = limits.resolve(resolve)?.into_array()?;
+                let limits = limits.into_array()?;
                 if limits.len() != 2 {
                     bail!("Error reading NameTree: 'Limits' is not of length 2");
                 }
@@ -1183,12 +1193,12 @@ impl<T: Object> Object for NameTree<T> {
             None => None
         };
 
-        let kids = dict.remove("Kids");
-        let names = dict.remove("Names");
+        let kids = take_entry(&mut dict, "Kids", resolve)?;
+        let names = take_entry(&mut dict, "Names", resolve)?;
         // If no `kids`, try `names`. Else there is an error.
         Ok(match (kids, names) {
             (Some(kids), _) => {
-                let kids = t!(kids.resolve(resolve)?.into_array()?.iter().map(|kid|
+                let kids = t!(kids.into_array()?.iter().map(|kid|
                     Ref::<NameTree<T>>::from_primitive(kid.clone(), resolve)
                 ).collect::<Result<Vec<_>>>());
                 NameTree {
@@ -1197,7 +1207,7 @@ impl<T: Object> Object for NameTree<T> {
                 }
             }
             (None, Some(names)) => {
-                let names = names.resolve(resolve)?.into_array()?;
+                let names = names.into_array()?;
                 let mut new_names = Vec::new();
                 for pair in names.chunks_exact(2) {
                     let name = pair[0].clone().resolve(resolve)?.into_string()?;
@@ -1241,9 +1251,10 @@ impl<T: Object> Object for NumberTree<T> {
     fn from_primitive(p: Primitive, resolve: &impl Resolve) -> Result<Self> {
         let mut dict = p.resolve(resolve)?.into_dictionary()?;
 
-        let limits = match dict.remove("Limits") {
+        // (an entry that refers to a missing object is a null entry: absent)
+        let limits = match take_entry(&mut dict, "Limits", resolve)? {
             Some(limits) => {
-                let limits = t!(limits.resolve(resolve)?.into_array());
+                let limits = t!(limits.into_array());
                 if limits.len() != 2 {
                     bail!("Error reading NameTree: 'Limits' is not of length 2");
                 }
@@ -1255,11 +1266,11 @@ impl<T: Object> Object for NumberTree<T> {
             None => None
         };
 
-        let kids = dict.remove("Kids");
-        let nums = dict.remove("Nums");
+        let kids = take_entry(&mut dict, "Kids", resolve)?;
+        let nums = take_entry(&mut dict, "Nums", resolve)?;
         match (kids, nums) {
             (Some(kids), _) => {
-                let kids = t!(kids.resolve(resolve)?.into_array()?.iter().map(|kid|
+                let kids = t!(kids.into_array()?.iter().map(|kid|
                     Ref::<NumberTree<T>>::from_primitive(kid.clone(), resolve)
                 ).collect::<Result<Vec<_>>>());
                 Ok(NumberTree {
